@@ -211,6 +211,7 @@ class Pervaporation:
             permeate_pressure,
             calculation_type,
         )
+        composition = composition.to_weight(self.mixture)
         return (composition.second / composition.first) / (
             perm_comp.second / perm_comp.first
         )
